@@ -335,10 +335,38 @@ static int pick_n(void)
     return menu[vt_below(&rng, (int)(sizeof(menu) / sizeof(menu[0])))];
 }
 
+/*
+ * Isolated-singularity qualification of the `rat' observation.
+ *
+ * The supplied samples (and, for calibrations, the solved error terms) are
+ * the low-order function only up to rounding.  Where the data are of lower
+ * order than the interpolant over the window admits, the exact rational
+ * interpolant of such rounded data has spurious pole-zero pairs (Froissart
+ * doublets) of width ~1e-16; if one falls exactly on a query frequency the
+ * mathematically exact interpolant itself is off there (seen: a constant
+ * term with alternating last-bit noise on knots symmetric about the query).
+ * That is a property of the problem instance, not of the implementation.
+ * A failure is therefore counted only if it is not isolated: the same
+ * object, asked at x (1 - ISO_REL) and x (1 + ISO_REL), reproduces the
+ * function there.  A wrong window, order or formula fails on whole
+ * neighbourhoods and stays a failure.
+ */
+#define ISO_REL	1.0e-6
+static long iso_skipped;
+
+static int getval_close(const vpar_t *p, double xr)
+{
+    double complex v = LIB(vnacal_get_parameter_value(vcp, p->h, xr * UNIT));
+    double complex t = rat_eval(&p->R, xr);
+
+    return creal(v) != HUGE_VAL &&
+	cabs(v - t) <= 1.0e-9 * fmax(1.0, cabs(t));
+}
+
 static void emit_getval(const vpar_t *p, int x)
 {
     double complex v;
-    int err, ok, rat = -1;
+    int err, ok, rat = -1, iso = 0;
 
     vt_cb_reset();
     v = LIB(vnacal_get_parameter_value(vcp, p->h, F(x)));
@@ -349,9 +377,21 @@ static void emit_getval(const vpar_t *p, int x)
 	double scale = fmax(1.0, cabs(t));
 
 	rat = cabs(v - t) <= 1.0e-9 * scale;
+	if (!rat && x > p->k[0] && x < p->k[p->n - 1]) {
+	    vt_cb_t saved = vt_cb;
+
+	    if (getval_close(p, x * (1.0 - ISO_REL)) &&
+		    getval_close(p, x * (1.0 + ISO_REL))) {
+		rat = 1;
+		iso = 1;
+		++iso_skipped;
+	    }
+	    vt_cb = saved;
+	    errno = err;
+	}
     }
-    vt_put("{\"e\":\"GetVal\",\"h\":%d,\"x\":%d,\"v\":%d,\"rat\":%d",
-	    p->h, x, ok ? intern_c(v) : 0, rat);
+    vt_put("{\"e\":\"GetVal\",\"h\":%d,\"x\":%d,\"v\":%d,\"rat\":%d,\"iso\":%d",
+	    p->h, x, ok ? intern_c(v) : 0, rat, iso);
     put_result(ok, err);
     vt_put("}");
     vt_end_line();
@@ -1107,6 +1147,16 @@ static const errmodel_t *model_at(calctx_t *c, int x)
     return e;
 }
 
+/* the model at a frequency off the grid (cls = rat only) */
+static void model_at_real(const calctx_t *c, double xr, errmodel_t *e)
+{
+    e->mt = c->mt;
+    e->p = c->p;
+    e->nterms = c->nterms;
+    for (int t = 0; t < c->nterms; ++t)
+	e->t[t] = rat_eval(&c->rt[t], xr);
+}
+
 static const double complex *dut_at(calctx_t *c, int x)
 {
     if (!c->have_dut[x]) {
@@ -1311,13 +1361,46 @@ static void emit_calmake(calctx_t *c, int slot)
 
 #define APPLY_TOL 1.0e-9
 
+/*
+ * apply_close: does applying the calibration at the off-grid frequency xr
+ * recover the DUT (isolated-singularity qualification, see emit_getval)
+ */
+static int apply_close(calctx_t *c, double xr, const double complex *S)
+{
+    int p = c->p, cells = p * p, ok = 0;
+    errmodel_t e;
+    double complex M[4];
+    double complex *mp[4] = { &M[0], &M[1], &M[2], &M[3] };
+    double f = xr * UNIT;
+    vnadata_t *vdp;
+
+    model_at_real(c, xr, &e);
+    model_measure(&e, S, M);
+    vdp = LIB(vnadata_alloc(vt_errfn, NULL));
+    if (vdp != NULL && LIB(vnacal_apply_m(vcp, c->ci, &f, 1, mp, p, p,
+		    vdp)) == 0) {
+	double worst = 0.0;
+
+	for (int i = 0; i < cells; ++i) {
+	    double e1 = cabs(vnadata_get_cell(vdp, 0, i / p, i % p) - S[i]);
+
+	    if (!(e1 <= worst))
+		worst = e1;
+	}
+	ok = worst <= APPLY_TOL;
+    }
+    if (vdp != NULL)
+	LIBV(vnadata_free(vdp));
+    return ok;
+}
+
 static void emit_apply(calctx_t *c, int slot, const int *q, int nq)
 {
     int p = c->p, cells = p * p, rc, err;
     double fv[256];
     double complex *mp[4];
     vnadata_t *vdp;
-    int ids[256], knot = -1, rat = -1;
+    int ids[256], knot = -1, rat = -1, iso = 0;
 
     if (nq > 256)
 	nq = 256;
@@ -1354,6 +1437,9 @@ static void emit_apply(calctx_t *c, int slot, const int *q, int nq)
 		}
 	    }
 	    ids[i] = intern_bytes(s, sizeof(double complex) * cells);
+	    if (dbg)
+		fprintf(stderr, "apply x=%d knot=%d inside=%d worst=%.3g\n", x,
+			at_knot, inside, worst);
 	    if (at_knot) {
 		if (knot == -1)
 		    knot = 1;
@@ -1362,8 +1448,18 @@ static void emit_apply(calctx_t *c, int slot, const int *q, int nq)
 	    } else if (c->cls && inside) {
 		if (rat == -1)
 		    rat = 1;
-		if (!(worst <= APPLY_TOL))
-		    rat = 0;
+		if (!(worst <= APPLY_TOL)) {
+		    vt_cb_t saved = vt_cb;
+
+		    if (apply_close(c, x * (1.0 - ISO_REL), c->dut[x]) &&
+			    apply_close(c, x * (1.0 + ISO_REL), c->dut[x])) {
+			++iso;
+			++iso_skipped;
+		    } else {
+			rat = 0;
+		    }
+		    vt_cb = saved;
+		}
 	    }
 	}
     }
@@ -1371,7 +1467,7 @@ static void emit_apply(calctx_t *c, int slot, const int *q, int nq)
     put_ints("q", q, nq);
     vt_put(",");
     put_ints("ids", ids, rc == 0 ? nq : 0);
-    vt_put(",\"knot\":%d,\"rat\":%d", knot, rat);
+    vt_put(",\"knot\":%d,\"rat\":%d,\"iso\":%d", knot, rat, iso);
     put_result(rc == 0, err);
     vt_put("}");
     vt_end_line();
